@@ -324,7 +324,9 @@ def check_c11(prop, tier, seed):
     plan = [('mcs', programs.cross2('mcs'), dict(pb=2 if q else 3, max_exec=3000 if q else 60000)),
             ('mcs', programs.cross3('mcs', MODES3, MODES3, MODES3), dict(pb=2, max_exec=1500 if q else 30000)),
             ('mcs', programs.cross3('mcs', CONV, MODES3, MODES3), dict(pb=1 if q else 2, max_exec=600 if q else 20000)),
-            ('mcs', programs.twosec('mcs'), dict(pb=2, max_exec=2500 if q else 30000))]
+            ('mcs', programs.twosec('mcs'), dict(pb=2, max_exec=2500 if q else 30000)),
+            ('mcs', programs.four('mcs', full=not q), dict(pb=1 if q else 2, max_exec=500 if q else 8000)),
+            ('mcs', programs.five('mcs'), dict(pb=1, max_exec=400 if q else 5000))]
     res = lock_abs_check(prop, tier, seed, ['CkFifo'], plan, fifo=True)
     res['assumptions'] = LOCK_ASSUME + ['arrival = the first modification of the lock object inside a Lock* call (derived from the '
                                         'instrumented operation stream)']
@@ -615,12 +617,19 @@ def id_programs(n, tier):
     return out
 
 
-def id_plan(tier):
+def id_plan(tier, caps=None):
     q = tier == 'quick'
     plan = []
-    for n in ((1, 2) if q else (1, 2, 3)):
-        plan.append((n, id_programs(n, tier), dict(pb=2 if q else 3, max_exec=6000 if q else 60000)))
+    for n in (caps or ((1, 2) if q else (1, 2, 3))):
+        plan.append((n, id_programs(n, tier), dict(pb=2 if q else 3, max_exec=(6000 if n < 3 else 2500) if q else 60000)))
     return plan
+
+
+def id_locked_hb_programs(n):
+    """a client holds a locked (strong) reference to another thread's heartbeat while that thread exits; all IDs must
+    still be obtainable afterwards"""
+    gen = ' | '.join('ID BAR:1:%d' % n for _ in range(n))
+    return ['P id%d_lockedhb cap=%d hash=%s | ID HB:1 | WAITHB:1 HBL:1 || %s || HBU:1' % (n, n, ','.join(['0'] * (n + 3)), gen)]
 
 
 def id_cfg(switches, prop):
@@ -658,7 +667,10 @@ def check_c05(prop, tier, seed):
 
 @register('C14')
 def check_c14(prop, tier, seed):
-    res = thread_check(prop, tier, seed, id_plan(tier), id_history, 'IdAbsTrace.tla', id_cfg(['CkCapacity'], prop), id_describe)
+    plan = id_plan(tier, caps=(1, 2, 3))      # a non-power-of-two capacity is part of every run
+    for n in (1, 2):
+        plan.append((n, id_locked_hb_programs(n), dict(pb=2, max_exec=1500)))
+    res = thread_check(prop, tier, seed, plan, id_history, 'IdAbsTrace.tla', id_cfg(['CkCapacity'], prop), id_describe)
     res['assumptions'] = ID_ASSUME + ['every program ends with a generation of capacity-many threads that must all hold an ID at the '
                                       'same time (barrier): a lost ID shows up as a GetThreadID call that never returns']
     return res
@@ -666,7 +678,13 @@ def check_c14(prop, tier, seed):
 
 @register('C15')
 def check_c15(prop, tier, seed):
-    res = thread_check(prop, tier, seed, id_plan(tier), id_history, 'IdAbsTrace.tla', id_cfg(['CkHeartbeat'], prop), id_describe)
+    q = tier == 'quick'
+    plan = id_plan(tier)
+    # the same with an EpochManager in use: a worker exits and its ID is reused while the coordinator is forwarding
+    plan.append((2, [ep_prog('id2_epoch_reuse_a', 2, ['ID HB:1 G D', 'ID HB:2 EXP:1 G D', 'F F F'], hashes=[0, 0, 1]),
+                     ep_prog('id2_epoch_reuse_b', 2, ['ID HB:1 G D', 'F F', 'ID HB:2 EXP:1'], hashes=[1, 0, 1])],
+                 dict(pb=2 if q else 3, max_exec=5000 if q else 50000)))
+    res = thread_check(prop, tier, seed, plan, id_history, 'IdAbsTrace.tla', id_cfg(['CkHeartbeat'], prop), id_describe)
     res['assumptions'] = ID_ASSUME + ['the harness keeps a copy of every heartbeat handed out and evaluates expired() of all earlier '
                                       "owners' heartbeats at the moment GetThreadID returns an ID"]
     return res
@@ -760,7 +778,10 @@ def epoch_programs(tier, which):
     if 'pin' in which:
         progs = [ep_prog('ep_pin_a', 3, ['G CUR D G D', 'G D', 'F F F']),
                  ep_prog('ep_pin_b', 3, ['G MIN CUR D', 'GL RL D', 'F F']),
-                 ep_prog('ep_pin_c', 3, ['G D G D', 'G D', 'F F F F'], hashes=[0, 0, 0])]
+                 ep_prog('ep_pin_c', 3, ['G D G D', 'G D', 'F F F F'], hashes=[0, 0, 0]),
+                 # guard creation stalled across forwards, then held while further forwards run
+                 ep_prog('ep_pin_d', 3, ['G CUR BAR:1:2 D', 'F F F BAR:1:2 F']),
+                 ep_prog('ep_pin_e', 3, ['G BAR:1:3 D', 'G BAR:1:3 D', 'F F BAR:1:3 F'])]
         plan.append((3, progs, dict(pb=2 if q else 3, max_exec=5000 if q else 60000)))
         # ID reuse: two workers compete for the single worker slot of a capacity-2 manager
         progs = [ep_prog('ep_reuse_a', 2, ['G D', 'G CUR D', 'F F F'], hashes=[0, 0, 1]),
@@ -769,7 +790,8 @@ def epoch_programs(tier, which):
         plan.append((2, progs, dict(pb=2 if q else 3, max_exec=6000 if q else 60000)))
     if 'mono' in which:
         progs = [ep_prog('ep_mono_a', 3, ['CUR MIN G CUR D MIN CUR', 'G D', 'F F F || F || CUR MIN']),
-                 ep_prog('ep_mono_b', 3, ['MIN CUR MIN CUR', 'CUR G D', 'F F'])]
+                 ep_prog('ep_mono_b', 3, ['MIN CUR MIN CUR', 'CUR G D', 'F F']),
+                 ep_prog('ep_mono_c', 3, ['G CUR GR CUR G GR', 'G D', 'F F F || F F || CUR MIN'])]
         plan.append((3, progs, dict(pb=2 if q else 3, max_exec=5000 if q else 60000)))
         plan.append((3, [ep_prog('ep_cross_a', 3, ['CUR G CUR D MIN', 'G D', 'FQ:254 F F F'])], dict(pb=1, max_exec=60 if q else 400)))
     if 'list' in which:
@@ -782,6 +804,9 @@ def epoch_programs(tier, which):
                          ep_prog('ep_stall_b', 3, ['BAR:1:2 G D GL RL D', 'FQ:300 BAR:1:2 FQ:300 F FQ:300 F'])],
                      dict(pb=1 if q else 2, max_exec=60 if q else 600)))
         plan.append((3, [ep_prog('ep_cross_b', 3, ['GL RL D GL RL D', 'FQ:253 F F F F'])], dict(pb=1, max_exec=60 if q else 400)))
+        # ID reuse: a second worker takes over the slot of an exited one and holds a list across a node boundary
+        plan.append((2, [ep_prog('ep_reuse_edge', 2, ['G D', 'BAR:1:2 GL RL RL D', 'FQ:510 BAR:1:2 F F F'], hashes=[0, 0, 1])],
+                     dict(pb=1 if q else 2, max_exec=60 if q else 600)))
         # the same race at a node boundary: the worker reads epoch 767 (last of its range), two forwards follow
         plan.append((3, [ep_prog('ep_edge_a', 3, ['BAR:1:2 GL RL D', 'FQ:511 BAR:1:2 F F F'])], dict(pb=2, max_exec=150 if q else 1500)))
     return plan
